@@ -17,7 +17,18 @@ is compared with the measurement in BOTH directions:
   measured leak, model predicts none       -> a real leak outside the modelled site: VIOLATION with the input
   measured leak, model predicts one        -> finding F-19a (class list-decode-leak): KNOWN-FINDING
   no leak measured, model predicts values holding heap / input references -> correspondence broken
-  outcome (ok / err / panic) differs       -> correspondence broken"""
+  outcome (ok / err / panic) differs       -> correspondence broken
+
+Message level (driver op `msg`, model Own.own_message through runner op `ownmsg`): what a server does with a request on ONE
+protocol object -- read_message_begin, then the emitted decoder (or the runtime's ApplicationException::decode) of a body
+that is complete / cut at a truncation point (anywhere in envelope or body) / corrupted in the body, then read_message_end
+where reached; binary and compact, sync and async (unchecked codec: complete messages only, malformed input is outside its
+contract).  Method names on both sides of FastStr's inline capacity (0, 5, 24, 25, 40 bytes), made FRESH by the driver for
+every run (a process-wide table keyed by the name cannot know them).  Measured after identifier, value / error, protocol
+object and input buffer have been dropped: live heap bytes and surviving references to the input; on the success path also
+whether the input is still referenced while only the returned value is alive although the value holds no byte string.
+The model predicts outcome, stage, what the body leaks (F-19a) and -- from the regenerated inventory of process-wide
+retention sites (C19_retention_inventory) -- that nothing the identifier held is retained."""
 import os, re
 from .. import core, gengen, genref, genrun, gencheck
 from ..gencheck import have_property_file, run_check
@@ -26,6 +37,9 @@ PROP = 'C19'
 LEVEL = 'proof' if have_property_file(PROP) else 'exploration'
 MEM_RE = re.compile(r'^(ok|err|panic|hang) LIVE (-?\d+) PEAK (\d+) REFS (\d+)$')
 OWN_RE = re.compile(r'^(ok|err|panic)(?: \w+)? LEAK (\d+) HEAP (\d+)$')
+MSG_RE = re.compile(r'^(ok|err|panic|hang) STAGE (\d) LIVE (-?\d+) PEAK (\d+) REFS (\d+) MID (\d+)$')
+OWNMSG_RE = re.compile(r'^(ok|err|panic)(?: \w+)? STAGE (\d) LEAK (\d+) HEAP (\d+) IDENT (\d+)/(\d+) RETAIN (\d+) VREF (\d+)$')
+NAME_LENS = (0, 5, 24, 25, 40)
 
 
 def owns_heap(sch, ty, seen=None):
@@ -118,6 +132,134 @@ def gen_cases(gb, rng, tier):
     return cases
 
 
+def _varint(n):
+    out = bytearray()
+    while n >= 0x80:
+        out.append((n & 0x7f) | 0x80)
+        n >>= 7
+    out.append(n)
+    return bytes(out)
+
+
+def envelope(proto, name, mtype, seq):
+    """-> (bytes, offset of the name): the message header the readers of `proto` expect (hand-encoded: building it with
+    write_message_begin would pass the name through TMessageIdentifier::new on the writing side)"""
+    import struct
+    if proto == 'compact':
+        head = bytes([0x82, 0x01 | (mtype << 5)]) + _varint(seq) + _varint(len(name))
+        return head + name, len(head)
+    head = struct.pack('>I', 0x80010000 | mtype) + struct.pack('>i', len(name))
+    return head + name + struct.pack('>i', seq), len(head)
+
+
+def appex_body(proto, msg, kind):
+    """ApplicationException { 1: string message, 2: i32 type }"""
+    import struct
+    if proto == 'compact':
+        zz = (kind << 1) ^ (kind >> 31)
+        return b'\x18' + _varint(len(msg)) + msg + b'\x15' + _varint(zz & 0xffffffff) + b'\x00'
+    return b'\x0b\x00\x01' + struct.pack('>i', len(msg)) + msg + b'\x08\x00\x02' + struct.pack('>i', kind) + b'\x00'
+
+
+def gen_msg_cases(gb, rng, tier):
+    sch = gb.schema
+    cases = []
+    k = 0
+    ncuts, ncorr = (9, 2) if tier == 'quick' else (40, 8)
+    for cfg in gb.configs:
+        names = [t for t in sch.names_in(cfg) if sch.types[t]['kind'] in ('struct', 'union')]
+        pick = sorted(rng.sample(names, min(len(names), 7 if tier == 'quick' else 40)))
+        for must in ('evo.Evo', 'inc.Pt'):
+            if must in names and must not in pick:
+                pick.append(must)
+        bodies = [(t, None) for t in pick] + ([('@appex', None)] if cfg == gb.configs[0] else [])
+        for tname, _ in bodies:
+            for proto in ('binary', 'compact'):
+                if tname == '@appex':
+                    body = appex_body(proto, bytes(rng.choice(b'abcdefgh') for _ in range(rng.choice([0, 3, 30, 70]))), rng.choice([0, 1, 6, -1]))
+                    mtype = 3
+                else:
+                    ty = ('ref', tname)
+                    body = genref.encode(sch, ty, gengen.gen_value(rng, sch, ty, 2), proto)
+                    mtype = rng.choice([1, 2, 4])
+                    if len(body) > (300 if tier == 'quick' else 2000):
+                        continue
+                for nlen in NAME_LENS:
+                    env, off = envelope(proto, b'n' * nlen, mtype, rng.choice([0, 7, 1 << 20]))
+                    full = env + body
+                    inputs = [('full', full, m) for m in ('sync', 'async')]
+                    if proto == 'binary':
+                        inputs.append(('full', full, 'unchecked'))
+                    pts = sorted(set(rng.sample(range(1, len(full)), min(len(full) - 1, ncuts)) + [len(env), len(full) - 1]))
+                    for c in pts:
+                        inputs.append(('trunc@%d' % c, full[:c], None))
+                    for _ in range(ncorr):
+                        if len(body) < 2:
+                            break
+                        pos = len(env) + rng.randrange(len(body))
+                        b = bytearray(full)
+                        b[pos] = rng.choice([0xff, 0x7f, 0x80, 0x00, 0x0c, 0x0f, b[pos] ^ 0x40, b[pos] ^ 0x01])
+                        inputs.append(('corrupt@%d' % pos, bytes(b), None))
+                    for what, data, m in inputs:
+                        k += 1
+                        pr = proto
+                        if m == 'unchecked':
+                            pr, mode = 'unchecked', 'sync'
+                        elif m == 'sync' or (m is None and k % 2):
+                            mode = 'sync'
+                        else:
+                            mode = 'async:' + genrun.SCHEDULES[k % len(genrun.SCHEDULES)]
+                        line = 'msg %s %s %s %s %s %d %d' % (cfg, tname, pr, mode, data.hex() or '-', off, nlen)
+                        cases.append(dict(line=line, level='msg', cfg=cfg, type=tname, proto=pr, mode=mode, fault=what, name_len=nlen,
+                                          nontrivial=True, model=False))
+    return cases
+
+
+def gen_all_cases(gb, rng, tier):
+    return gen_cases(gb, rng, tier) + gen_msg_cases(gb, rng, tier)
+
+
+def judge_msg(gb, case, out, pred):
+    """message level: -> (failing [(reason, cls)], correspondence problem or None, tag)"""
+    m = MSG_RE.match(out or '')
+    if not m:
+        return [], None, 'msg-no-measurement'
+    kind, stage, live, refs, mid = m.group(1), int(m.group(2)), int(m.group(3)), int(m.group(5)), int(m.group(6))
+    dirty = (live != 0 or refs != 0)
+    what = ('read_message_begin (%d-byte method name) + body decode (%s, stage %d): after identifier, %s, protocol object and input were dropped '
+            % (case['name_len'], kind, stage, 'value' if kind == 'ok' else 'error')
+            + ('%d bytes stay allocated' % live if live != 0 else 'a reference to the input buffer survives')
+            + (' and the input buffer is still referenced' if live != 0 and refs != 0 else ''))
+    pm = OWNMSG_RE.match(pred) if pred is not None else None
+    if pred is not None and not pm:
+        return [], 'model runner: %s' % pred[:100], 'msg-model-bad'
+    if pm is None:
+        return ([(what, None)] if dirty else []), None, 'msg-no-model'
+    mkind, mstage, mleak, mheap, mret, vref = pm.group(1), int(pm.group(2)), int(pm.group(3)), int(pm.group(4)), int(pm.group(7)), int(pm.group(8))
+    if kind in ('panic', 'hang'):
+        if kind == 'panic' and case['mode'] == 'sync':
+            if mkind != 'panic':
+                return [], 'outcome: implementation panics, model %s' % pred[:40], 'msg-outcome-mismatch'
+            return [], None, 'msg-panic-predicted'
+        return [], None, 'msg-not-compared'
+    if kind != mkind or stage != mstage:
+        return [], 'outcome: implementation %s stage %d, model %s' % (kind, stage, pred[:40]), 'msg-outcome-mismatch'
+    bad = []
+    if kind == 'ok' and mid and not vref:
+        bad.append(('read_message_begin (%d-byte method name) + body decode succeeded: with the identifier dropped the input buffer is still '
+                    'referenced, but the returned value holds no byte string' % case['name_len'], None))
+    if dirty and mleak == 0:
+        note = ('; the ownership model predicts none (no retention site accounted for)' if mret == 0
+                else '; the regenerated inventory has a process-wide site that can retain what the identifier holds')
+        return bad + [(what + note, None)], None, 'msg-leak-unpredicted'
+    if dirty:
+        return bad + [(what + ' (predicted: %d element(s) of a sync list decode never dropped)' % mleak, 'list-decode-leak')], None, 'msg-leak-predicted'
+    if mheap:
+        return bad, ('no leak measured, the model predicts %d undropped value(s) holding heap memory / input references (%s)'
+                     % (mheap, pred)), 'msg-leak-not-measured'
+    return bad, None, ('msg-ok' if kind == 'ok' else 'msg-clean')
+
+
 def inline_cap_check():
     """FastStr's inline capacity is a constant of an external crate that the value-level predicate `heap_val` of Own.v
     uses: re-read it from the source of the faststr version pinned in /repo/Cargo.lock.  -> (ok, text)"""
@@ -148,9 +290,21 @@ def plain_template(case):
 
 def evaluate(gb, case, out):
     """outcomes that are not a returned error (the leak judgement itself is in `judge`, which needs the model)"""
-    m = MEM_RE.match(out or '')
     sch = gb.schema
     cls = None
+    if case.get('level') == 'msg':
+        m = MSG_RE.match(out or '')
+        swallow = case['type'] != '@appex' and genrun.is_arg_swallow(sch, case['cfg'], case['type'], case['mode'])
+        if not m and case['mode'] != 'sync' and (out or '').startswith('CRASH'):
+            return []       # async preallocation abort: F-09e (C09)
+        if not m:
+            return [('message decode does not return: %s' % (out or '')[:100], 'keep-is-arg-swallow' if swallow else None)]
+        if m.group(1) in ('panic', 'hang'):
+            if case['mode'] != 'sync' and m.group(1) == 'panic':
+                return []
+            return [('message decode %ss' % m.group(1), 'keep-is-arg-swallow' if swallow else None)]
+        return []
+    m = MEM_RE.match(out or '')
     if not m and case['mode'] != 'sync' and (out or '').startswith('CRASH'):
         # the emitted ASYNC container decoders preallocate from the wire count (Vec::with_capacity(size)); a corrupted
         # count makes the allocator give up and the process abort: finding F-09e of property C09 (not a failed decode
@@ -218,14 +372,21 @@ def judge(gb, case, out, pred):
 def extra(cases, outs):
     k = {'ok': 0, 'err': 0, 'panic': 0}
     peak = 0
-    for o in outs:
+    msgs = {}
+    for c, o in zip(cases, outs):
         m = MEM_RE.match(o or '')
         if m:
             k[m.group(1)] = k.get(m.group(1), 0) + 1
             peak = max(peak, int(m.group(3)))
+        mm = MSG_RE.match(o or '')
+        if mm:
+            key = '%s stage %s, %s, name %s' % (mm.group(1), mm.group(2), 'sync' if c['mode'] == 'sync' else 'async',
+                                               'inline' if c.get('name_len', 0) <= 24 else 'beyond inline capacity')
+            msgs[key] = msgs.get(key, 0) + 1
     k['aborted'] = sum(1 for o in outs if (o or '').startswith('CRASH'))
     return dict(decode_outcomes=k, truncations=sum(1 for c in cases if c['fault'].startswith('trunc')),
-                corruptions=sum(1 for c in cases if c['fault'].startswith('corrupt')), max_peak_bytes=peak)
+                corruptions=sum(1 for c in cases if c['fault'].startswith('corrupt')), max_peak_bytes=peak,
+                message_level=msgs)
 
 
 def run_thrift(chk, replay=None):
@@ -238,7 +399,8 @@ def run_thrift(chk, replay=None):
         sel = [i for i, c in enumerate(cases) if plain_template(c)] if runner else []
         preds = {}
         if sel:
-            lines = ['own ' + cases[i]['line'].split(' ', 1)[1] for i in sel]
+            lines = [('ownmsg ' + ' '.join(cases[i]['line'].split(' ')[1:6])) if cases[i].get('level') == 'msg'
+                     else 'own ' + cases[i]['line'].split(' ', 1)[1] for i in sel]
             mouts = core.run_lines(runner, lines, args=[os.path.join(gb.out_dir, 'schema.txt')])
             preds = {i: (o or 'CRASH') for i, o in zip(sel, mouts)}
         failing, corr = [], []
@@ -247,9 +409,9 @@ def run_thrift(chk, replay=None):
         if not okc:
             chk.violation('translator: ' + txt, dict(kind='translator', output=txt), no_input=True)
         for i, (c, o) in enumerate(zip(cases, outs)):
-            bad, why, tag = judge(gb, c, o, preds.get(i))
+            bad, why, tag = (judge_msg if c.get('level') == 'msg' else judge)(gb, c, o, preds.get(i))
             tags[tag] = tags.get(tag, 0) + 1
-            if i in preds and tag != 'not-compared':
+            if i in preds and tag not in ('not-compared', 'msg-not-compared'):
                 stats['compared'] += 1
             for reason, cls in bad:
                 failing.append((c, reason, cls, o))
@@ -273,12 +435,15 @@ def run_thrift(chk, replay=None):
         chk.cov['model_impl_mismatches'] = stats['mismatches']
         return d
 
-    return run_check(chk, replay, PROP, gen_cases, evaluate, post=post,
+    return run_check(chk, replay, PROP, gen_all_cases, evaluate, post=post,
                      rule="every emitted struct / union / container typedef of the corpus x 2 (thorough: 8) generated values x reference "
                           "encodings in {binary, compact} (<= 400 bytes quick) x truncation at every offset (quick: 24 sampled offsets for long "
                           "messages) + 4 (16) single-byte corruptions x {sync, async schedules} x builder configs; observation: counting global "
                           "allocator (live bytes before == after dropping result and input) and Bytes::is_unique of a second input handle, "
                           "compared per case with the prediction of the extracted ownership model (outcome; leak / no leak); "
+                          "message level: 7 (thorough: 40) emitted types per config + ApplicationException as bodies behind a hand-encoded envelope, "
+                          "method names of 0 / 5 / 24 / 25 / 40 bytes made fresh per run, complete / truncated anywhere (11 (42) points) / corrupted in "
+                          "the body (2 (8)), binary + compact x sync + async, unchecked codec on complete messages; "
                           "distinct by SHA-1 of the case line",
                      extra_dist=extra_all, model_ops=())
 
